@@ -414,7 +414,10 @@ func c18NewPackage(in c18Input) (key, what string) {
 				return o, nil
 			}
 			o := ast.NewObj(ast.Pkg, path[strings.LastIndex(path, "/")+1:])
-			o.Data = ast.NewScope(nil)
+			sc := ast.NewScope(nil)
+			sc.Insert(ast.NewObj(ast.Fun, "Member"))
+			sc.Insert(ast.NewObj(ast.Typ, "Kind"))
+			o.Data = sc
 			imports[path] = o
 			return o, nil
 		}
@@ -426,7 +429,10 @@ func c18NewPackage(in c18Input) (key, what string) {
 				return o, nil
 			}
 			o := dst.NewObj(dst.Pkg, path[strings.LastIndex(path, "/")+1:])
-			o.Data = dst.NewScope(nil)
+			sc := dst.NewScope(nil)
+			sc.Insert(dst.NewObj(dst.Fun, "Member"))
+			sc.Insert(dst.NewObj(dst.Typ, "Kind"))
+			o.Data = sc
 			imports[path] = o
 			return o, nil
 		}
@@ -503,7 +509,10 @@ func c18NewPackage(in c18Input) (key, what string) {
 	return "", ""
 }
 
+var c18DotTwice = "package p\n\nimport . \"lib\"\n\nimport . \"lib\"\n\nvar usesDot = 1\n"
+
 var c18PkgFiles = []string{
+	// (index 0 is used by name elsewhere: new files go to the end)
 	"package p\n\nimport \"fmt\"\n\nvar X int\n\nfunc F(s string) int { return len(s) + X + pkg.Y }\n\nfunc G() { fmt.Println(undefined1, true) }\n",
 	"package p\n\nimport (\n\t\"os\"\n\tstr \"strings\"\n)\n\nvar X string\n\ntype T struct{ a int }\n\nfunc (t T) M() error { return nil }\n\nvar _ = str.ToUpper(os.Args[0])\n",
 	"package p\n\nimport . \"math\"\n\nconst K = Pi\n\nfunc F() {}\n\nvar Z = append([]int{}, K2)\n",
@@ -805,6 +814,11 @@ func c18Prop(c *Ctx) {
 		}
 		if len(in.Srcs) == 0 {
 			in.Srcs = []string{c18PkgFiles[0]}
+		}
+		if i%5 == 0 {
+			// one package dot-imported twice by one file: the importer returns the cached object, the second
+			// merge meets the very same objects
+			in.Srcs = append(in.Srcs, c18DotTwice)
 		}
 		c.Res.Evaluations++
 		b, _ := json.Marshal(in)
